@@ -209,6 +209,18 @@ def r2b_flag_raises(ctx, chk, rule="C06.2b"):
         for e in effs:
             if e[1] == "raise" and any(t in flags for t in C02._sub(e[0])):
                 n += 1
+                cj = set(e[0][1]) if e[0][0] == "and" else {e[0]}
+                zero = [c_ for c_ in cj if c_[0] == "cmp" and c_[1] == "==" and C(0) in (c_[2], c_[3]) and (c_[3] if c_[2] == C(0) else c_[2])[0] == "attr"
+                        and (c_[3] if c_[2] == C(0) else c_[2])[2] == "reach_probability" and (c_[3] if c_[2] == C(0) else c_[2])[1][0] == "idx"
+                        and (c_[3] if c_[2] == C(0) else c_[2])[1][2] == C(0)]
+                flagt = [c_ for c_ in cj if c_ == ("truthy", flags[-1])]
+                if q.endswith("StochasticGame.solve") and len(cj) == 2 and len(zero) == 1 and len(flagt) == 1 and e[2][0] == "call" and ctx.prog.exc_is_a(e[2][1], "ValueError"):
+                    chk.ok(rule, f.where(), "%s raises ValueError iff <state list>[0].reach_probability == 0 and self.%s: the documented 'no solution' test, made in solve()" % (f.short, flags[-1][2]))
+                    continue
+                if any(C02._unresolved_obj(ctx)(t) for t in C02._sub(e[0])):
+                    chk.undecided(rule, f.where(), "%s raises under `%s`: the condition reads an object that is not resolved (the documented 'no solution' test may have moved here)" % (
+                        f.short, show(e[0])[:100]))
+                    continue
                 chk.violation(rule, f.where(), "%s raises under `%s`: an extra pruning-dependent failure besides the documented 'no solution' test "
                               "(state_list[0].reach_probability == 0 and prune, after the sweep) - e.g. a final initial state or a state the search result does not list is declared unsolvable" % (f.short, show(e[0])[:160]),
                               expected="the only pruning-dependent raise is the no-solution guard in value_iteration_reachability", found=show(e[0])[:200],
